@@ -237,3 +237,68 @@ pub fn gen_readers(rng: &mut Rng, thorough: bool, op: u32, out: &mut Cases) {
         }
     }
 }
+
+/// C18: every kind x every value variant x quantizations x offsets
+pub fn gen_c18(rng: &mut Rng, thorough: bool, out: &mut Cases) {
+    use dlt_core::dlt::*;
+    let quants: [u32; 24] = [
+        0, 0x8000_0000, 0x3f80_0000, 0xbf80_0000, 0x3f00_0000, 0x3dcc_cccd, 0x3c23_d70a, 0x3fc0_0000, 1, 0x007f_ffff, 0x0080_0000,
+        0x7f7f_ffff, 0xff7f_ffff, 0x7f80_0000, 0xff80_0000, 0x7fc0_0000, 0xffc0_0001, 0x7f80_0001, 0x4b80_0000, 0x5f80_0000, 0x2f80_0000,
+        0x4000_0000, 0x447a_0000, 0x3a83_126f,
+    ];
+    let offs32: [i32; 9] = [0, 1, -1, 200, -200, i32::MAX, i32::MIN, 1000, -1000];
+    let offs64: [i64; 11] = [0, 1, -1, 200, -200, i64::MAX, i64::MIN, i32::MAX as i64 + 1, -(1 << 53), (1 << 62), -(1 << 62)];
+    // the witness of the overflow defect first: value 1000, quantization 1.0, offset -200
+    let mk = |kind: TypeInfoKind, value: Value, q: u32, offset: FixedPointValue| Argument {
+        type_info: TypeInfo { kind, coding: StringCoding::ASCII, has_variable_info: false, has_trace_info: false },
+        name: None,
+        unit: None,
+        fixed_point: Some(FixedPoint { quantization: f32::from_bits(q), offset }),
+        value,
+    };
+    let mut push = |a: &Argument, out: &mut Cases| {
+        let mut w = W::new();
+        w.arg(a);
+        out.push(42, w);
+    };
+    push(&mk(TypeInfoKind::UnsignedFixedPoint(FloatWidth::Width32), Value::U32(1000), 0x3f80_0000, FixedPointValue::I32(-200)), out);
+    push(&mk(TypeInfoKind::SignedFixedPoint(FloatWidth::Width64), Value::I64(7785), 0x3c23_d70a, FixedPointValue::I64(-50)), out);
+    let n = if thorough { 400_000 } else { 30_000 };
+    for i in 0..n {
+        let signed = rng.bool();
+        let w = if rng.bool() { FloatWidth::Width32 } else { FloatWidth::Width64 };
+        let kind = if signed { TypeInfoKind::SignedFixedPoint(w) } else { TypeInfoKind::UnsignedFixedPoint(w) };
+        let value = match rng.below(12) {
+            0 => Value::U8(gen_u(rng, 8) as u8),
+            1 => Value::U16(gen_u(rng, 16) as u16),
+            2 => Value::U32(gen_u(rng, 32) as u32),
+            3 => Value::U64(gen_u(rng, 64) as u64),
+            4 => Value::I8(gen_i(rng, 8) as i8),
+            5 => Value::I16(gen_i(rng, 16) as i16),
+            6 => Value::I32(gen_i(rng, 32) as i32),
+            7 => Value::I64(gen_i(rng, 64) as i64),
+            8 => Value::U32(rng.below(100_000) as u32),
+            9 => Value::I64(rng.below(100_000) as i64 - 50_000),
+            10 => rng.pick(&[Value::U64((1 << 53) + 1), Value::U64((1 << 53) + 3), Value::I64(-(1 << 53) - 1), Value::U64(u64::MAX), Value::I64(i64::MIN)]).clone(),
+            _ => Value::U128(gen_u(rng, 128)),
+        };
+        let q = if rng.chance(3, 4) { *rng.pick(&quants) } else { gen_f32_bits(rng) };
+        let offset = match w {
+            FloatWidth::Width32 => FixedPointValue::I32(if rng.chance(2, 3) { *rng.pick(&offs32) } else { gen_i(rng, 32) as i32 }),
+            FloatWidth::Width64 => FixedPointValue::I64(if rng.chance(2, 3) { *rng.pick(&offs64) } else { gen_i(rng, 64) as i64 }),
+        };
+        let mut a = mk(kind, value, q, offset);
+        match i % 16 {
+            0 => a.fixed_point = None,
+            1 => a.type_info.kind = gen_kind(rng),
+            2 => a.value = Value::F32(1.5),
+            3 => a.value = Value::Bool(1),
+            4 => {
+                // any well-formed argument
+                a = gen_arg(rng, 12);
+            }
+            _ => {}
+        }
+        push(&a, out);
+    }
+}
